@@ -41,6 +41,26 @@ pub fn items() -> Vec<Item> {
         }
         v.push(Item { name: format!("chan:{name}"), text: format!("use vh\n{body}"), inputs: vec![], lines: vec![], expect: None, deterministic: true });
     }
+    // several writers racing into one channel, only main prints: the statement's family ("tasks
+    // communicate only through channels and print only from one task"). The scheduler gives every
+    // runnable task one instruction per turn whatever the budget, so the merge order is fixed.
+    let races: [(&str, &str); 3] = [
+        (
+            "race:two-producers",
+            "let c: channel<array<int>> = channel()\ntask {\n  c.write([1])\n  c.write([2])\n}\ntask {\n  c.write([11])\n  c.write([12])\n}\nvar k = 0\nwhile k < 4 {\n  let r = c.read()\n  println(r[0])\n  k = k + 1\n}\n",
+        ),
+        (
+            "race:three-producers-uneven",
+            "let c: channel<int> = channel()\ntask {\n  var i = 0\n  while i < 6 {\n    c.write(i)\n    i = i + 1\n  }\n}\ntask {\n  var i = 0\n  while i < 4 {\n    c.write(100 + i * i)\n    i = i + 1\n  }\n}\ntask {\n  c.write(200)\n  c.write(201)\n}\nvar k = 0\nwhile k < 12 {\n  println(c.read())\n  k = k + 1\n}\n",
+        ),
+        (
+            "race:producers-with-different-work",
+            "let c: channel<string> = channel()\ntask {\n  var i = 0\n  while i < 3 {\n    c.write(\"a\" .. i)\n    i = i + 1\n  }\n}\ntask {\n  var i = 0\n  while i < 3 {\n    let pad = [i, i, i]\n    c.write(\"b\" .. pad.len() + i)\n    i = i + 1\n  }\n}\nvar k = 0\nvar acc = \"\"\nwhile k < 6 {\n  acc = acc .. c.read() .. \",\"\n  k = k + 1\n}\nprintln(acc)\n",
+        ),
+    ];
+    for (name, body) in races {
+        v.push(Item { name: name.into(), text: format!("use vh\n{body}"), inputs: vec![], lines: vec![], expect: None, deterministic: true });
+    }
     v
 }
 
